@@ -127,8 +127,14 @@ func C02(c *Ctx) {
 		bad := ""
 		for _, a := range appends {
 			for _, ret := range ssax.Returns(hf) {
-				if len(ret.Results) == 1 && !ssax.IsNilConst(ssax.Resolve(ret.Results[0])) && ssax.ReachableFrom(hf, a, ret, nil, nil) {
-					bad = c.PosOf(ret)
+				if len(ret.Results) != 1 {
+					continue
+				}
+				// (`return helper(…)` with the helper expanded returns a merge: every alternative is judged where it is chosen)
+				for _, lf := range ssax.Leaves(ret.Results[0], ret) {
+					if !ssax.IsNilConst(ssax.Resolve(lf.V)) && (lf.At == a || ssax.ReachableFrom(hf, a, lf.At, nil, nil)) {
+						bad = c.PosOf(ret)
+					}
 				}
 			}
 		}
